@@ -65,7 +65,7 @@ def classify_m(mline, trace_lines):
         else:
             if "drops" in diff or "unexpected-drops" in diff:
                 props |= {"C04"}
-            if opname in ("probe",):
+            if opname in ("probe", "churn"):
                 props |= {"C02"}
             elif opname in ("insert", "extend"):
                 props |= {"C02", "C01"}
@@ -159,6 +159,8 @@ def classify_x(xline, trace_lines):
         props |= {"C04"}
     elif oracle == "lockstep":
         props |= {"C06"}
+    elif oracle == "reissue":
+        props |= {"C02"}
     elif oracle == "independence":
         props |= {"C10"}
     elif oracle == "eq":
@@ -289,10 +291,10 @@ TRUSTED = [
     "Lean 4.33.0 kernel (theorems re-elaborated on every run with `lake env lean`; thorough tier adds leanchecker)",
     "axioms allowed: propext, Classical.choice, Quot.sound (audited from `#print axioms` on every run); no native_decide, no bv_decide, no sorry/admit, no own axioms",
     "correspondence check = differential testing of the hand-written model against /repo's working tree (harness, generators, canonicalisation, Lean driver parser, brood_verif hooks); coverage measured below",
-    "alloc::Vec/VecDeque, hashbrown, rayon, serde, rustc modelled not verified; no slot reused 2^64 times",
+    "alloc::Vec/VecDeque, hashbrown, rayon, serde, rustc modelled not verified; fewer than 2^64 identifiers issued by one world (hypothesis of C02_machine_partial; the counter's width is re-extracted from the source on every run)",
 ]
 
-HOOK_COMMITS = ["903a2e5", "7f71e80"]
+HOOK_COMMITS = ["903a2e5", "7f71e80", "129f937"]
 FIX_COMMITS = ["7b7a5a0", "885588c", "58c8a9f", "3d46a06", "0180007", "7197610", "0564c68", "450bc0a", "bbb86ce"]
 NOT_APPLICABLE = {}
 
@@ -308,7 +310,7 @@ PROPS = {
                 level="refinement theorem: every history of admissible ops is a run of the reference map, len() counts its live identifiers; per-op effect/frame theorems with returned identifiers; copies hold the same map; every Reachable world is a consistent map (Props/C01.lean) + exact state/result correspondence with the real World on generated histories incl. chains of Entry operations through one handle",
                 trust=CORE_TRUST, technique="Lean 4 proof (invariant + refinement by induction over op lists) + differential correspondence check"),
     "C02": dict(runs=core_runs,
-                level="allocator theorems (freshness, stability, death of identifiers) for every allocator history, lifted to world histories (every world op acts on the allocator only through allocate/release/setLoc on live identifiers): dead forever, never reissued, stable, dead in copies (Props/C02.lean); probes of every issued identifier compared with the model",
+                level="allocator theorems (freshness, stability, death of identifiers) for every allocator history, lifted to world histories (every world op acts on the allocator only through allocate/release/setLoc on live identifiers): dead forever, never reissued, stable, dead in copies; the allocator with the code's u64 wrapping generation counter (width, start and bump re-extracted from the source on every run) is the image of the Nat one for every history and coincides with it along every history issuing fewer than 2^64 identifiers, beyond which the statement is false of wrapping_add (Props/C02.lean); slot churn past 2^16 reuses of one slot; probes of every issued identifier compared with the model",
                 trust=CORE_TRUST, technique="Lean 4 proof (allocator invariant, induction) + differential correspondence check"),
     "C04": dict(runs=c04_runs,
                 level="conservation theorem over all histories (owned ++ dropped is a permutation of moved-in), exactly-once, clone_from drops exactly what the destination owned, clones and round-tripped worlds own copies (Props/C04.lean, C06_roundtrip_owns_copies); a deserialization that fails must drop every value it had built (ledger on the real code, mutated token streams); per-op drop multisets of the real code (observing Drop impls) compared with the model, ledger empty after all worlds dropped",
